@@ -3,7 +3,7 @@
    N/Z/positive stay Coq's datatypes. *)
 Require Extraction.
 Require Import ExtrOcamlBasic.
-From OrdV Require Import Base.Prelude Codec.Varint.
+From OrdV Require Import Base.Prelude Codec.Varint Ord.Sat Ord.SatText.
 Cd "../extract/gen".
-Extraction "x_ordinals.ml" run_C26.
+Extraction "x_ordinals.ml" run_C26 run_C29 run_C30.
 Cd "../../coq".
